@@ -286,7 +286,7 @@ def check(ctx):
 
 def upper_family_rule(ctx, rule):
     """the upper/lower-case prefix family is chosen from the FIRST character of the name only (shared with C13: constants and enumerators)"""
-    SP = gsa.summarise(ctx, TR, 'Transformer._split_c_string_for_namespace_matches', inline_only=())
+    SP = gsa.summarise(ctx, TR, 'Transformer._split_c_string_for_namespace_matches', depth=1)     # the prefix choice may sit in a private helper
     up = [a_ for a_ in SP.atoms() if re.search(r'\.isupper\(\)$', a_)]
     rule.check(bool(up) and all(re.search(r'\[0\]\.isupper\(\)$', a_) for a_ in up), 'upper-case prefixes selected by the first character', ctx.py.mod(TR).rel, SP.func.lineno,
                'the choice between FOO_ and foo_ prefixes tests %s: a constant with a mixed-case tail (GDK_KEY_a, GDK_KEY_Return) matches no namespace prefix and is dropped' % up, detail=up)
